@@ -135,7 +135,7 @@ func (p *PipelineWrap) UpdateStatus(ctx context.Context, id string, st pipeline.
 	if err != nil {
 		info += " write-failed: " + err.Error()
 	}
-	p.w.Log.Add(Event{Kind: EvStatus, Comp: id, Src: -1, Seq: -1, Info: info, OK: err == nil, Pos: truncate(errMsg, 400)})
+	p.w.Log.Add(Event{Kind: EvStatus, Comp: id, Src: -1, Seq: -1, Info: info, OK: err == nil, Pos: truncate(errMsg, 6000)})
 	if h := p.w.Hooks.OnStatus; h != nil {
 		h(id, st, true)
 	}
